@@ -388,6 +388,47 @@ EDIF_SCOPES = """(edif scopes
 """
 
 
+# small fixed texts of the other two formats, with the constructs the generators above do not emit
+# (positional port maps, assign, constants; .names/.latch/.conn): every truncation of these always runs
+VERILOG_FIXED = """module top (a, b, y);
+  input a;
+  input [1:0] b;
+  output y;
+  wire w;
+  wire [1:0] v;
+  assign v = b;
+  leaf u0 (a, w);
+  leaf u1 (.i(w), .o(y));
+  leaf u2 (.i(1'b0), .o());
+endmodule
+`celldefine
+module leaf (i, o);
+  input i;
+  output o;
+endmodule
+`endcelldefine
+"""
+
+EBLIF_FIXED = """.model top
+.inputs a b[0] b[1]
+.outputs y
+.subckt leaf i=a o=w
+.cname u0
+.param INIT 10
+.names w b[0] n1
+11 1
+.latch n1 q re clk 2
+.conn q y
+.end
+
+.model leaf
+.inputs i
+.outputs o
+.blackbox
+.end
+"""
+
+
 def _decl_name(tok, j):
     """identifier of the nameDef starting at token j: atom | ( rename id .. ) | ( array nameDef .. )"""
     if j >= len(tok):
@@ -541,7 +582,7 @@ def corruptions(rec, rng=None, sample=None, n_replace=None):
     out = []
     for i in range(n):
         edge = i == 0 or i == n - 1
-        out.append({"kind": "truncate", "pos": i, "must": edge or i == 1})
+        out.append({"kind": "truncate", "pos": i, "must": edge or i == 1 or bool(rec.get("full_truncate"))})
         out.append({"kind": "delete", "pos": i, "must": edge})
         out.append({"kind": "duplicate", "pos": i, "must": edge})
         cur = t[sp[i][0]:sp[i][1]]
